@@ -22,7 +22,7 @@ from pedal.sandbox import mocked
 from pedal.sandbox.constants import TOOL_NAME
 from pedal.sandbox.feedbacks import runtime_error, EXCEPTION_FF_MAP
 from pedal.sandbox.exceptions import SandboxHasNoFunction, SandboxHasNoVariable
-from pedal.sandbox.timeout import timeout
+from pedal.sandbox.timeout import timeout, was_terminated
 from pedal.sandbox.result import SandboxResult
 from pedal.sandbox.tracer import TRACER_STYLES
 
@@ -160,9 +160,18 @@ class Sandbox:
             return timeout(self.allowed_time, self._execute,
                            code, filename, kind, False, **meta)
         except TimeoutError as timeout_exception:
+            # The abandoned thread no longer touches this sandbox (see
+            # `_execute`), so its patches and captured output are handled here.
             self._stop_patches()
+            if self._current_stdout:
+                current_stdout = self._current_stdout.pop()
+                self.append_output(current_stdout.getvalue(), self._context[-1])
             self._capture_exception(timeout_exception, sys.exc_info(),
                                     code, filename)
+            # Advance past the abandoned context, unless its own thread
+            # managed to finish (and advance) just before it was given up on.
+            if self._context and self._next_context_id <= self._context[-1].context_id:
+                self._next_context_id = self._context[-1].context_id + 1
             return self
 
     def _execute(self, code, filename, kind, threaded, **meta):
@@ -187,21 +196,31 @@ class Sandbox:
             with self.trace.as_filename(filename, code):
                 exec(compiled_code, self.data)
         except Exception as user_exception:
+            if was_terminated():
+                return self
             self._stop_mocking(context)
             self._capture_exception(user_exception, sys.exc_info(),
                                     code, filename)
         # NOTE: https://docs.python.org/3/library/exceptions.html#SystemExit
         # This exception does not inherit from Exception and has to be caught separately
         except SystemExit as system_exit:
+            # If this thread was abandoned because of a timeout, then the
+            # caller has already cleaned up and recorded the TimeoutError.
+            if was_terminated():
+                return self
             self._stop_mocking(context)
             self._capture_exception(system_exit, sys.exc_info(),
                                     code, filename)
         except BaseException:
+            if was_terminated():
+                return self
             # Other non-Exception errors (e.g., KeyboardInterrupt) are not
             # captured, but the patches must not outlive the execution.
             self._stop_mocking(context)
             raise
         else:
+            if was_terminated():
+                return self
             self._stop_mocking(context)
 
         self._next_context_id += 1
